@@ -53,6 +53,13 @@ theorem clean_kp {k : Key} (h : PKey k) : clean (kp k) = kp k := by
 
 theorem isClean_kp {k : Key} (h : PKey k) : IsClean (kp k) := clean_kp h
 
+/-- `HiddenFS.RemoveAll` cleans its name first; a key path is in cleaned form already -/
+theorem rmName_kp {k : Key} (h : PKey k) : rmName (kp k) = kp k := by
+  unfold rmName
+  split
+  · rfl
+  · exact clean_kp h
+
 theorem comps_kp {k : Key} (h : PKey k) : comps (kp k) = k := comps_render_rooted h.nameOK
 
 theorem kp_inj {a b : Key} (ha : PKey a) (hb : PKey b) (h : kp a = kp b) : a = b := by
